@@ -6,12 +6,25 @@ NOTE = ("Trusted: rustc/Kani 0.68 codegen, CBMC 6.11, CaDiCaL, the reference mod
         "file; everything named 'Out' in DESIGN.md §5 is outside the claim.")
 
 CLAIMS = {
+    "C01": dict(
+        text="Panic-freedom and cursor safety of the byte-level kernels that touch raw document bytes, for ALL buffers inside the "
+             "bounds: every Lexer cursor operation from every start position keeps pos <= len and does not panic or loop past the "
+             "input; ASCII85 / RunLength / ASCIIHex decoders, xref-stream row decoding and its size arithmetic, XRefTable lookups. "
+             "Partial: everything above the lexer (object parser, File::load, typed loading) is Out -- CBMC cannot execute "
+             "parser::parse on even one symbolic byte in this crate.",
+        design_ref="§5 C01", note=NOTE, technique=BMC),
     "C02": dict(
         text="For all entry kinds, generations, positions and stream ids the merged cross-reference table keeps the entry of the "
              "newest section that mentions an object number (histories of 3 sections over 1 id, 2 sections over 2 ids, plus an "
              "inductive step from an arbitrary merged state), and xref-stream rows decode to the entry kinds/fields the spec "
              "defines for every byte value. Decided by the solver over all values; /Prev chain walking and textual tables are Out.",
         design_ref="§5 C02", note=NOTE, technique=BMC),
+    "C03": dict(
+        text="Token level only: for every buffer inside the bounds Lexer::next/peek return exactly the token (range and cursor) a "
+             "reference tokenizer written from ISO 32000-1 §7.2 returns (white-space set, delimiters, comments, <<, >>, names), "
+             "twice in a row; integer/real classification equals the §7.3.3 grammar for every regular token; hex strings decode as "
+             "the reference decoder says; 'stream' EOL handling. Object-level parsing (#xx names, n g R look-ahead, containers) is Out.",
+        design_ref="§5 C03", note=NOTE, technique=BMC),
     "C05": dict(
         text="For every input inside the bounds the real ASCIIHex, ASCII85 and RunLength decoders return what a reference decoder "
              "written from ISO 32000-1 returns whenever that accepts the input, never panic otherwise; PNG un-prediction equals "
@@ -19,6 +32,40 @@ CLAIMS = {
              "checked on concrete parameter tuples with symbolic pixel data through a stored deflate block. Deflate/LZW bit streams, "
              "filter chains and parameter parsing are Out.",
         design_ref="§5 C05", note=NOTE, technique=BMC),
+    "C06": dict(
+        text="Per-object key material of Algorithm 1/1.A for every file key, key size, object number and generation: exactly "
+             "key[..n] || id[0..3] || gen[0..2] (|| 'sAlT') is hashed and the first min(n+5,16) digest bytes key the cipher; "
+             "/Encrypt-object and (only with EncryptMetadata false) metadata strings are exempt and untouched; cipher key length "
+             "is 32 for AES-256; short AES data is an error. MD5/RC4 are recording stubs: what is FED to them is decided by the "
+             "solver; password verification and the KDFs are Out.",
+        design_ref="§5 C06", note=NOTE, technique=BMC + "; hash/cipher cores replaced by recording stubs"),
+    "C07": dict(
+        text="Inheritance clause only: for every presence pattern of MediaBox / CropBox / Resources over a page and its ancestors "
+             "(2^8 resp. 2^3 patterns, real Page/PageTree/PagesRc values) media_box, crop_box (with fall-back to the media box) "
+             "and resources return the page's own entry, else the nearest ancestor's. The page-number descent (page i = i-th "
+             "leaf) could NOT be decided: every tree shape exhausted 12 GB / 27 min in CBMC (typed nodes live in large Arc "
+             "allocations that are not constant-propagated) -- it is Out and a defect there is not detected.",
+        design_ref="§5 C07", note=NOTE, technique=BMC),
+    "C08": dict(
+        text="Parser half: for every operator keyword of ISO 32000-1 Table 51 (except BI/ID/EI, d0/d1, BX/EX) the real dispatch "
+             "OpBuilder::add, given well-formed operands with ARBITRARY finite real or integer values, yields exactly the "
+             "operation(s) the table defines with operands in order, incl. the expansions b, b*, s, ', \", TD, y and v (v for an "
+             "arbitrary current point; m/l/c/v/y proven to leave their end point there; re proven to leave it alone). The "
+             "serializer (shorthand selection, number formatting) and content-stream tokenisation are Out.",
+        design_ref="§5 C08", note=NOTE, technique=BMC),
+    "C16": dict(
+        text="ASCIIHex: decode_hex(encode_hex(d)) == d and the output is accepted with the same result by the reference decoder, "
+             "for all d up to the bound. ASCII85: the encoder's output for every input up to the bound is accepted by a reference "
+             "decoder (written from the Adobe definition) and yields the input, and decode_85 agrees with that reference decoder "
+             "on every such text -- composition gives the round trip; word_85 inverts the base-85 digits for all 2^40 groups. "
+             "Flate and LZW encoders are Out.",
+        design_ref="§5 C16", note=NOTE, technique=BMC),
+    "C19": dict(
+        text="Width table only: one insertion step from every table state of the bounded family (first_char 0..5, 0..3 entries, "
+             "code 0..8; entries, default and width symbolic) sets exactly the inserted code and leaves every other code unchanged, "
+             "hence insertion order cannot matter; get() is the simple-font rule for every first_char/code in usize. /W array "
+             "interpretation and ToUnicode character maps are Out.",
+        design_ref="§5 C19", note=NOTE, technique=BMC),
 }
 
 NOT_APPLICABLE = {
@@ -34,17 +81,10 @@ NOT_APPLICABLE = {
 }
 # properties planned but not yet registered are listed as not applicable until their check exists
 PENDING = {
-    "C19": "check under construction in this round (kernel-level obligations per DESIGN.md §5); not claimed until it discharges",
     "C18": "check under construction in this round (kernel-level obligations per DESIGN.md §5); not claimed until it discharges",
-    "C16": "check under construction in this round (kernel-level obligations per DESIGN.md §5); not claimed until it discharges",
     "C14": "check under construction in this round (kernel-level obligations per DESIGN.md §5); not claimed until it discharges",
     "C11": "check under construction in this round (kernel-level obligations per DESIGN.md §5); not claimed until it discharges",
-    "C08": "check under construction in this round (kernel-level obligations per DESIGN.md §5); not claimed until it discharges",
-    "C07": "check under construction in this round (kernel-level obligations per DESIGN.md §5); not claimed until it discharges",
-    "C06": "check under construction in this round (kernel-level obligations per DESIGN.md §5); not claimed until it discharges",
     "C04": "check under construction in this round (kernel-level obligations per DESIGN.md §5); not claimed until it discharges",
-    "C03": "check under construction in this round (kernel-level obligations per DESIGN.md §5); not claimed until it discharges",
-    "C01": "check under construction in this round (kernel-level obligations per DESIGN.md §5); not claimed until it discharges",
 }
 NOT_APPLICABLE.update(PENDING)
 
